@@ -384,31 +384,24 @@ func (e *bitEnv) evalCall(c *ast.CallExpr) bval {
 			for _, a := range c.Args {
 				args = append(args, e.eval(a))
 			}
-			// a method called on a struct literal: T{F: x, ...}.M() - the receiver's fields are the literal's elements
+			// a method called on a struct literal: T{F: x, ...}.M() - the receiver's fields are the literal's elements;
+			// the same for a local that was assigned such a literal
 			var recvFields map[string]bval
 			if sel, ok := core.Unparen(c.Fun).(*ast.SelectorExpr); ok {
 				if cl, ok := core.Unparen(sel.X).(*ast.CompositeLit); ok {
-					if st, ok := e.info.TypeOf(cl).Underlying().(*types.Struct); ok {
-						recvFields = map[string]bval{}
-						for i := 0; i < st.NumFields(); i++ {
-							if w := intWidth(st.Field(i).Type()); w > 0 {
-								recvFields[st.Field(i).Name()] = constIntVal(0, w)
-							}
+					if _, isSt := e.info.TypeOf(cl).Underlying().(*types.Struct); isSt {
+						var okl bool
+						if recvFields, okl = e.structLitFields(cl); !okl {
+							return e.fail("positional struct literal %s not understood", core.ExprStr(cl))
 						}
-						for _, el := range cl.Elts {
-							kv, ok := el.(*ast.KeyValueExpr)
-							if !ok {
-								return e.fail("positional struct literal %s not understood", core.ExprStr(cl))
+					}
+				} else if id, ok := core.Unparen(sel.X).(*ast.Ident); ok {
+					for k, v := range e.flds {
+						if strings.HasPrefix(k, id.Name+".") && !strings.Contains(k[len(id.Name)+1:], ".") {
+							if recvFields == nil {
+								recvFields = map[string]bval{}
 							}
-							id, ok := kv.Key.(*ast.Ident)
-							if !ok {
-								continue
-							}
-							v := e.eval(kv.Value)
-							if w := intWidth(e.info.TypeOf(kv.Value)); w > 0 && v.ok && !v.slice {
-								v = v.resize(w)
-							}
-							recvFields[id.Name] = v
+							recvFields[k[len(id.Name)+1:]] = *v
 						}
 					}
 				}
@@ -424,6 +417,36 @@ func (e *bitEnv) evalCall(c *ast.CallExpr) bval {
 		}
 	}
 	return e.fail("call %s not understood", core.ExprStr(c))
+}
+
+// structLitFields evaluates a keyed struct literal to the values of its fields (absent fields are zero).
+func (e *bitEnv) structLitFields(cl *ast.CompositeLit) (map[string]bval, bool) {
+	st, ok := e.info.TypeOf(cl).Underlying().(*types.Struct)
+	if !ok {
+		return nil, false
+	}
+	out := map[string]bval{}
+	for i := 0; i < st.NumFields(); i++ {
+		if w := intWidth(st.Field(i).Type()); w > 0 {
+			out[st.Field(i).Name()] = constIntVal(0, w)
+		}
+	}
+	for _, el := range cl.Elts {
+		kv, ok := el.(*ast.KeyValueExpr)
+		if !ok {
+			return nil, false
+		}
+		id, ok := kv.Key.(*ast.Ident)
+		if !ok {
+			continue
+		}
+		v := e.eval(kv.Value)
+		if w := intWidth(e.info.TypeOf(kv.Value)); w > 0 && v.ok && !v.slice {
+			v = v.resize(w)
+		}
+		out[id.Name] = v
+	}
+	return out, true
 }
 
 func (e *bitEnv) lenExpr(x ast.Expr) (int, bool) {
@@ -540,6 +563,20 @@ func (e *bitEnv) exec(stmts []ast.Stmt) ([]bval, bool) {
 				if id, ok := l.(*ast.Ident); ok {
 					if id.Name == "_" {
 						continue
+					}
+					// local := T{F: a, G: b}: the local is the tuple of its fields
+					if cl, isLit := core.Unparen(s.Rhs[i]).(*ast.CompositeLit); isLit && (s.Tok == token.DEFINE || s.Tok == token.ASSIGN) {
+						if _, isSt := e.info.TypeOf(cl).Underlying().(*types.Struct); isSt {
+							if fl, okl := e.structLitFields(cl); okl {
+								for k, fv := range fl {
+									fv := fv
+									e.flds[id.Name+"."+k] = &fv
+								}
+								uv := bval{ok: false}
+								e.vars[e.info.ObjectOf(id)] = &uv
+								continue
+							}
+						}
 					}
 					v := e.eval(s.Rhs[i])
 					if s.Tok == token.OR_ASSIGN || s.Tok == token.AND_ASSIGN || s.Tok == token.SHL_ASSIGN || s.Tok == token.SHR_ASSIGN {
